@@ -9,7 +9,7 @@ from vf.ref import overlap
 
 ID = "C14"
 BOUNDS = {
-    "quick": "14 fragment environments (chains, diamonds, self/mutual recursion, 3-cycles, same fragment under exclusive and non-exclusive parents) x every pair of 27 Dog-level items x 10 Cat-level items x 6 interface-level items (every pair collides on a response name in a different way), both definition orders for a quarter of them",
+    "quick": "argument-equality family (ordered pairs of 40 argument forms x 3 positions); every fifth document also parsed without locations; 14 fragment environments (chains, diamonds, self/mutual recursion, 3-cycles, same fragment under exclusive and non-exclusive parents) x every pair of 30 Dog-level items (incl. __typename) x 11 Cat-level items x 6 interface-level items (every pair collides on a response name in a different way), both definition orders for a quarter of them",
     "thorough": "15 Cat-level and 10 interface-level items, plus triples of Dog-level items, both definition orders everywhere",
 }
 RULE = (
